@@ -13,4 +13,5 @@ let () =
   | [| _; "c14" |] -> Drv_c14.run stdin stdout
   | [| _; "c05" |] -> Drv_c05.run stdin stdout
   | [| _; "c18" |] -> Drv_c18.run stdin stdout
+  | [| _; "c06" |] -> Drv_c06.run stdin stdout
   | _ -> prerr_endline "usage: driver <model>  (script on stdin)"; exit 2
